@@ -93,9 +93,16 @@ def run_case(ctx, rng, idx):
     evaluate(ctx, rng, idx, h)
     from ..mutate import same_count_edit
 
+    warm(h, 5)
     if same_count_edit(rng, h, directed=True):  # same object and counts, other shapes: stale memos show here
         ctx.event("re-evaluated-after-in-place-edit")
-        evaluate(ctx, rng, idx, h)
+        evaluate(ctx, rng, idx, h, first_bound=5)  # (the first question after the edit is the last one asked before it)
+    from ..mutate import degree_preserving_swap
+
+    warm(h, 4)
+    if rng.random() < 0.5 and degree_preserving_swap(rng, h, directed=True):
+        ctx.event("re-evaluated-after-a-degree-preserving-double-swap")
+        evaluate(ctx, rng, idx, h, first_bound=4)
     c = h.copy()
     if same_count_edit(rng, c, directed=True):
         evaluate(ctx, rng, idx, c)
@@ -105,6 +112,17 @@ def run_case(ctx, rng, idx):
         lab, g2 = second_order(rng, h, directed=True)
         ctx.event("re-evaluated-on-" + lab)
         evaluate(ctx, rng, idx, g2)
+
+
+def warm(h, m):
+    """every measure asked once with bound m right before an in-place edit: a one-slot memo then holds exactly the question
+    that is asked first after the edit"""
+    from hypergraphx.measures import directed as dm
+
+    for fn in (dm.exact_reciprocity, dm.strong_reciprocity, dm.weak_reciprocity, dm.hyperedge_signature_vector):
+        call(fn, h, m)
+    for fn in (dm.in_degree_sequence, dm.out_degree_sequence):
+        call(fn, h)
 
 
 def many_same_shape_case(ctx, rng, idx):
@@ -194,7 +212,7 @@ def hub_case(ctx, rng, idx):
     ctx.distinct_add(("hub", len(edges)))
 
 
-def evaluate(ctx, rng, idx, h):
+def evaluate(ctx, rng, idx, h, first_bound=None):
     from hypergraphx.measures import directed as dm
 
     P = []
@@ -251,7 +269,7 @@ def evaluate(ctx, rng, idx, h):
         ctx.check("C12:signature", float(np.sum(r)) == sum(1 for z in sizes if z <= mm), "C12:signature:sum", lambda: wit(m))
     # ---- reciprocity -----------------------------------------------------------------------
     partial = False
-    for m in range(2, 9):
+    for m in ([first_bound] if first_bound else []) + [m_ for m_ in range(2, 9) if m_ != first_bound]:
         Eb = [e for e in E if 2 <= len(e[0]) + len(e[1]) <= m]
         Eset = set(Eb)
         reach = {}
